@@ -328,7 +328,7 @@ def _chunks(spec):
         q = []
         for t in p:
             t = dict(t)
-            for key in ("sym",):
+            for key in ("sym", "sym2"):
                 if key in t and isinstance(t[key], dict) and t[key].get("k") == "own" and defined_upto[k] != total_labels:
                     t[key] = {"k": "mod", "i": t[key]["i"]}
             q.append(t)
